@@ -21,7 +21,7 @@ for which two counterexamples are kept below.
 | HEAD returns the same status and headers without a body                | `head_is_get_without_body` (model of `render_GET`/`render_HEAD`: status, ETag, Content-Range, Content-Length), `head_same_headers_no_body` (`FileDownloader.render` alone) |
 | (multi-range: first range only — RFC permits a subset; outside "single") | `multi_range_first_only` |
 | ETag / If-None-Match (as far as "same status and headers" goes)        | `if_none_match_hit_304`, `if_none_match_miss_ignored`, `handler_is_downloader` |
-| "for literal, immutable and mutable files" (quantifier)                | the handler model is parametric in `NodeInfo` (mutable?, storage index?) and takes the file as the byte list that `filenode.read(consumer, first, size)` slices (`nodeRead`). That the real nodes deliver exactly `file[first..first+size)` is not proved here: for mutable files (SDMF/MDMF, the segment arithmetic of `Retrieve`) it rests on C09's ranged-read theorem (`read_range_slice`), for immutable files on the download properties (C03/C46); it is *tied here by correspondence only* — routed GET/HEAD through Site/Root on the in-process grid, including multi-segment CHK and a production-size 3-segment MDMF file with Range headers around every segment boundary (body == file slice, length == Content-Length; seeded C40-d) |
+| "for literal, immutable and mutable files" (quantifier)                | `render_over_any_slice_reader` (+ `closed_range_body_over_any_slice_reader`): `FileDownloader.render` over *any* node whose `read(offset, size)` is a slice reader answers exactly as over the in-memory file, for every header string, GET and HEAD. The hypothesis `SliceReader` is what C04 `read_slice` / `read_slice_literal` (CHK, LIT) and C09 `read_range_slice` / `read_to_end` (SDMF, MDMF) prove for their node models (cited, not imported: those node models are other properties' files); that the real nodes behave so is additionally tied here by the routed GET/HEAD correspondence (multi-segment CHK with segment sizes 64 and 66, production-size 3-segment MDMF, every segment boundary). The handler model is parametric in `NodeInfo` (mutable?, storage index?) |
 | Accept-Ranges, Content-Type equal on HEAD and GET                      | monitor only (routed path) |
 | the code before the fixes violates the statement                       | `asIs_suffix_on_empty_counterexample`, `asIs_open_range_at_end_counterexample` |
 
@@ -245,6 +245,41 @@ theorem asIs_suffix_on_empty_counterexample :
 file instead of 416 -/
 theorem asIs_open_range_at_end_counterexample :
     render .asIs [10, 11, 12] false (some "bytes=3-".toList) = ⟨200, none, 3, [10, 11, 12]⟩ := by decide
+
+/-! ### the composition Range header → parsed range → `filenode.read(offset, size)` → body -/
+
+/-- `FileDownloader.render` over *any* node (`renderWith`: `get_size()` = `file.length`, `read(req, offset, size)`
+= `rd offset size`): if the node's `read` is a slice reader of `file` — whole file for `(0, None)`,
+`file[offset : offset+size]` for non-empty in-range requests, which is what C04 `read_slice` /
+`read_slice_literal` prove for immutable and literal nodes and C09 `read_range_slice` / `read_to_end` for
+mutable ones — then for every Range header string whatsoever and GET or HEAD the response (status,
+Content-Range, Content-Length, body) is the one over the in-memory file, so every theorem above about
+`render .fixed file` (206 body = `file[first .. min(last, size-1)]`, 416, ignored headers) holds for that node. -/
+theorem render_over_any_slice_reader (file : Bytes) (rd : Nat → Option Nat → Bytes) (hrd : SliceReader file rd)
+    (isHead : Bool) (hdr : Option Str) :
+    renderWith .fixed file.length rd isHead hdr = render .fixed file isHead hdr :=
+  renderWith_sliceReader file rd hrd isHead hdr
+
+/-- the composed statement for a closed range: header `bytes=f-l` → `read(f, min(l,size-1)-f+1)` → body
+`file[f .. min(l, size-1)]` -/
+theorem closed_range_body_over_any_slice_reader (file : Bytes) (rd : Nat → Option Nat → Bytes)
+    (hrd : SliceReader file rd) (f l : Num) (hf : f ≠ []) (hl : l ≠ [])
+    (hle : numVal f ≤ numVal l) (hsat : numVal f < file.length) :
+    (renderWith .fixed file.length rd false (some (hdrOf (.range f l)))).status = 206
+    ∧ (renderWith .fixed file.length rd false (some (hdrOf (.range f l)))).body
+        = slice file (numVal f) (min (numVal l) (file.length - 1)) := by
+  rw [render_over_any_slice_reader file rd hrd, (closed_range_206 file false f l hf hl hle hsat).1]
+  simp
+
+/-- non-vacuity: the in-memory node is a slice reader, and so is a reader that cuts the other way round
+(`file[:offset+size][offset:]`); a run over the latter -/
+example (file : Bytes) : SliceReader file (nodeRead file)
+    ∧ SliceReader file (fun off sz => match sz with | none => file.drop off | some n => (file.take (off + n)).drop off) :=
+  ⟨nodeRead_sliceReader file, by simp, fun first n _ _ => by simp [List.drop_take]⟩
+
+example : renderWith .fixed 5 (fun off sz => match sz with
+      | none => ([10, 11, 12, 13, 14] : Bytes).drop off | some n => (([10, 11, 12, 13, 14] : Bytes).take (off + n)).drop off)
+      false (some "bytes=1-3".toList) = ⟨206, some (1, 3, 5), 3, [11, 12, 13]⟩ := by decide
 
 /-! ### `FileNodeHandler.render_GET` / `render_HEAD` (ETag, If-None-Match, then the range logic) -/
 
